@@ -51,7 +51,8 @@ def TInv (resume : Bool) (c : Ctl) (th : BThread) : Prop :=
   (th.pc = .new → th.inCb = none ∧ th.pausedFlag = false ∧ th.excFlag = false) ∧
   (th.excFlag = true → th.raised = true) ∧
   ((th.pc = .exc ∨ th.pc = .excHeld) → th.raised = true) ∧
-  (th.joined = true → (th.pc = .done ∨ th.pc = .new) ∧ c.pc ≠ .boot)
+  (th.joined = true → (th.pc = .done ∨ th.pc = .new) ∧ c.pc ≠ .boot) ∧
+  (th.localPaused = true → th.inWait = true)
 
 /-- Control-thread part of the invariant. -/
 def CInv (resume clockPaused : Bool) (c : Ctl) : Prop :=
